@@ -26,6 +26,8 @@ func propC18(p *Prog, r *Report) {
 	r.NotDecided = []string{"the induction over arrays of unbounded length: that the mirror is sorted, that the step table composed over all iterations finds the last element before the probe, termination as a whole (a loop invariant over array contents needs a prover or execution)", "interleavings of append/pop/collect over histories"}
 	r.Assume = []string{"the array mirror is sorted by Seq (appended in sequence order under the locks of C06.b)", "a snapshot point never equals a version's sequence number"}
 
+	r.Rule("C18.e", "whoever replaces the search array carries its elements over: no copy into a slice made with length 0 in model/core")
+	c18MirrorWritersCopy(p, r, "C18.e")
 	fi := p.Func(kBinarySearch)
 	if fi == nil {
 		r.Undecided("C18.a", kBinarySearch, "", "binarySearch not found (a different search implementation is not analysed)")
